@@ -52,21 +52,27 @@ Fixpoint scan_digits (base : N) (s : text) (acc : N) (prev_us : bool) : option (
            end
   end.
 
-Definition py_int (tr : N -> N) (base : N) (s0 : text) : option Z :=
-  let s := skip_ws (map (to_ascii tr) s0) in
-  let '(neg, s) := match s with
-                   | 43 :: r => (false, r)
-                   | 45 :: r => (true, r)
-                   | _ => (false, s)
-                   end in
-  let s := if base =? 16 then
-             match s with
-             | 48 :: x :: r => if (x =? 120) || (x =? 88)
-                               then match r with 95 :: r' => r' | _ => r end
-                               else s
-             | _ => s
-             end
-           else s in
+Definition strip_sign (s : text) : bool * text :=
+  match s with
+  | 43 :: r => (false, r)
+  | 45 :: r => (true, r)
+  | _ => (false, s)
+  end.
+
+(* base 16 only: an optional 0x / 0X prefix, after which one underscore is allowed *)
+Definition strip_0x (base : N) (s : text) : text :=
+  if base =? 16 then
+    match s with
+    | 48 :: x :: r => if (x =? 120) || (x =? 88)
+                      then match r with 95 :: r' => r' | _ => r end
+                      else s
+    | _ => s
+    end
+  else s.
+
+(* after blanks and sign: optional prefix, digits with single underscores, trailing blanks *)
+Definition int_body (base : N) (neg : bool) (s0 : text) : option Z :=
+  let s := strip_0x base s0 in
   match s with
   | [] => None
   | c :: _ =>
@@ -80,6 +86,9 @@ Definition py_int (tr : N -> N) (base : N) (s0 : text) : option Z :=
                end
            end
   end.
+
+Definition py_int (tr : N -> N) (base : N) (s0 : text) : option Z :=
+  let '(neg, s) := strip_sign (skip_ws (map (to_ascii tr) s0)) in int_body base neg s.
 
 (* ---------------------------------------------------------------- formatting *)
 Definition lhex (d : N) : N := if d <? 10 then 48 + d else 87 + d.      (* lower case *)
